@@ -1018,7 +1018,8 @@ func parseFile(path string) fileInfo {
 //   "K1a" "K1b" "K2" "N1" "N2" "N3"  trigger streams
 func (h *hist) closeAndCheck(kind string) {
 	h.opIdx++
-	how := h.r.Intn(3)
+	how := h.r.Intn(4)
+	var up2 *fakeUp
 	var files []fileInfo
 	read := func() {
 		h.observe()
@@ -1035,12 +1036,27 @@ func (h *hist) closeAndCheck(kind string) {
 		read()
 		h.client.Close()
 	default: // replaced by a new connection
-		up2 := &fakeUp{id: h.up.id + "r", user: h.up.user}
+		up2 = &fakeUp{id: h.up.id + "r", user: h.up.user}
 		ft := &fakeTrack{cache: packetcache.New(16), kind: webrtc.RTPCodecTypeAudio,
 			codec: webrtc.RTPCodecCapability{MimeType: "audio/opus", ClockRate: 48000, Channels: 2}}
 		h.client.PushConn(theGroup, up2.id, up2, []conn.UpTrack{ft}, h.up.id)
+		if how == 3 {
+			// the replacing connection is pushed a second time while it still names
+			// what it replaces (the recorder asked for the connections again right
+			// after the replacement): the first incarnation must be closed
+			h.t.Note("replacement-pushed-twice")
+			h.client.PushConn(theGroup, up2.id, up2, []conn.UpTrack{ft}, h.up.id)
+		}
 		read()
 		h.client.Close()
+	}
+	// every attachment of the recorder to a publisher's connection is undone:
+	// nothing stays attached (and no file stays open) once the recorder is closed
+	h.t.Checked("C20.close_detaches")
+	for _, u := range []*fakeUp{h.up, up2} {
+		if u != nil && u.dels < len(u.locals) {
+			h.t.Fail("C20", "close_detaches", fmt.Sprintf("connection %s: the recorder attached %d times and detached %d times: a recording of it is still attached after the recorder was closed (its file is never finished)", u.id, len(u.locals), u.dels))
+		}
 	}
 	h.t.Checked("C20.close_detaches")
 	if h.up.dels == 0 {
